@@ -348,7 +348,8 @@ def travel_cases(ctx, exe, d):
             exprs.append("(c06-run %s %d %d)" % (spec, a, b))
             meta.append((hs, a, b, depth))
     mo = ctx.run_model(exe, reqs)
-    io = scm.run_cases(d, exprs, prelude_extra=TRAVEL_PRELUDE)
+    io, _hard = run_chibi(d, exprs, prelude_extra=TRAVEL_PRELUDE, timeout=30, chunk=500)
+    io += [None] * (len(exprs) - len(io))
     for j, (e, i, m) in enumerate(zip(exprs, io, meta)):
         spec_s, gen_s = mo[2 * j], mo[2 * j + 1]
         want = [] if spec_s == "-" else [((1 if t[0] == "i" else 2), int(t[1:])) for t in spec_s.split()]
@@ -376,10 +377,13 @@ def run_scripts(ctx, exe, d, bodies, label):
     # the machine over the REGENERATED travel_to_point must agree with the machine over the SPEC script
     # (MachineProofs proves it; this run shows it on the extracted code and localises a broken translation)
     try:
+        if getattr(ctx, "_c06_stop", False) or any(u.get("name") == "machine-impl-vs-spec" for u in ctx.unproved):
+            raise RuntimeError("skipped")
         mi = ctx.run_model(exe, ["runimpl %d %s" % (FUEL, " ".join(tokens(s))) for s in scripts], timeout=300)
     except Exception as e:
         mi = None
-        _broken_once(ctx, "machine-impl-vs-spec", "machine over the regenerated travel_to_point did not finish: %s" % str(e)[:200])
+        if str(e) != "skipped":
+            _broken_once(ctx, "machine-impl-vs-spec", "machine over the regenerated travel_to_point did not finish: %s" % str(e)[:200])
     if mi is not None:
         for s, a, b in zip(scripts, mo, mi):
             if a != b:
@@ -403,13 +407,8 @@ def run_scripts(ctx, exe, d, bodies, label):
     # chibi side, in chunks with a short timeout: a broken runtime can make scripts diverge or crash, and
     # every such case costs one timeout — stop the stream after a few (the violation is established)
     io, hard = [], 0
-    CH = 50 if len(keep) < 600 else 250      # small streams (corpus, exhaustive-first) localise fast
-    for lo in range(0, len(keep), CH):
-        if hard >= 3 or getattr(ctx, "_c06_stop", False):
-            break
-        part = scm.run_cases(d, [program(s) for (_, s, _) in keep[lo:lo + CH]], timeout=6 if CH == 50 else 30, chunk=CH)
-        io += part
-        hard += sum(1 for x in part if x is None or x == "TIMEOUT" or x.startswith("CRASH"))
+    if True:
+        io, hard = run_chibi(d, [program(s) for (_, s, _) in keep], stop=getattr(ctx, "_c06_stop", False))
     if len(io) < len(keep):
         ctx.note("%s: stopped after %d of %d scripts (%d crashes/timeouts so far)" % (label, len(io), len(keep), hard))
         keep = keep[:len(io)]
@@ -437,6 +436,48 @@ def run_scripts(ctx, exe, d, bodies, label):
     ctx.note("%s: %d scripts, %d compared with chibi, %d skipped (machine out of fuel), %d skipped (uncaught at top), %d differ" % (
         label, len(bodies), len(keep), skipped["fuel"], skipped["uncaught"], len(bad)))
     return len(bad)
+
+
+def run_chibi(d, exprs, prelude_extra="", timeout=10, chunk=250, max_hard=3, stop=False):
+    """like scm.run_cases, but flushes after every case (so a killed process is blamed on the right case),
+    uses a short timeout and gives up after max_hard crashes/timeouts.  Returns (results, hard);
+    results may be shorter than exprs."""
+    import subprocess, tempfile
+    res, hard, lo = [], 0, 0
+    os.makedirs(B.SCRATCH, exist_ok=True)
+    while lo < len(exprs) and hard < max_hard and not stop:
+        hi = min(len(exprs), lo + chunk)
+        body = [scm.PRELUDE, prelude_extra]
+        for i in range(lo, hi):
+            body.append("(verif-case %d %s) (flush-output-port)" % (i, exprs[i]))
+        body.append('(write-string "DONE")(newline)')
+        with tempfile.NamedTemporaryFile("w", suffix=".scm", dir=B.SCRATCH, delete=False) as fh:
+            fh.write("\n".join(body))
+            path = fh.name
+        try:
+            try:
+                r = B.run_chibi(d, [path], timeout=timeout)
+                out, rc, err = r.stdout, r.returncode, r.stderr
+            except subprocess.TimeoutExpired as e:
+                out = e.stdout.decode() if isinstance(e.stdout, bytes) else (e.stdout or "")
+                rc, err = "TIMEOUT", ""
+        finally:
+            os.unlink(path)
+        got = {}
+        for line in out.split("\n"):
+            sp = line.find(" ")
+            if sp > 0 and line[:sp].isdigit():
+                got[int(line[:sp])] = line[sp + 1:]
+        n = lo
+        while n < hi and n in got:
+            res.append(got[n])
+            n += 1
+        if n < hi:                                   # case n killed the process
+            res.append("TIMEOUT" if rc == "TIMEOUT" else "CRASH rc=%s %s" % (rc, (err or "")[-200:].replace("\n", " | ")))
+            hard += 1
+            n += 1
+        lo = n
+    return res, hard
 
 
 def _broken_once(ctx, name, reason):
